@@ -20,7 +20,8 @@ Record site := {
   st_template : str;
   st_line : N;
   st_ctx : N;     (* 0 text, 1 quoted attribute value, 2 script, 3 style, 4 title/textarea *)
-  st_cls : N      (* 0 template constant, 1 numeric, 2 DSDL identifier / type name, 3 ends in an escaping filter (e, escape,
+  st_cls : N;     (* 0 template constant, 1 numeric, 2 DSDL identifier / type name, 3 ends in an escaping filter (e, escape,
                      forceescape, make_unique) applied to the WHOLE expression, 4 markup-producing filter (display_type),
                      8 DSDL documentation text not escaped as a whole, 9 not classified *)
+  st_safe_filter : bool   (* a `safe` filter occurs in the expression (directly or through a variable): autoescape is bypassed *)
 }.
